@@ -3,7 +3,7 @@
 //! single-threaded, so a plain global with interior mutability is used.
 
 use crate::arena::{self, track_off, track_on};
-use crate::exec::{self, shared, violate, Phase, View};
+use crate::exec::{self, shared, violate, violate_soft, Phase, View};
 use crate::model::*;
 use crate::script::*;
 use cactusref::{Rc, Weak};
@@ -590,8 +590,7 @@ pub fn on_vbegin(id: Oid, canary_ok: bool) {
         count_max(ctr::MAX_GROUP, n as u64);
     }
     if let Some(msg) = cost_violation {
-        drop(m);
-        violate(View::Cost, &msg);
+        violate_soft(View::Cost, &msg);
     }
     if peers_survive {
         label(lab::DEATH_PEER_RECORDS);
@@ -668,10 +667,9 @@ pub fn on_hdrop_end(target: Oid, panicking: bool) {
                     fmt_set(&missing)
                 )
             };
-            drop(m);
-            violate(View::Orphan, &msg);
+            violate_soft(View::Orphan, &msg);
         }
-        if b.rule == 1 && b.obligation.len() >= 2 {
+        if missing.is_empty() && b.rule == 1 && b.obligation.len() >= 2 {
             label(lab::RULEA_OBLIG2);
         }
     } else if !b.inert && !b.covered && group >= 2 {
@@ -680,12 +678,10 @@ pub fn on_hdrop_end(target: Oid, panicking: bool) {
     for &(t, is_some) in &b.pending_weak {
         let destroyed = m.objs[t as usize].st != St::Alive;
         if is_some && destroyed {
-            drop(m);
-            violate(View::Weak, &format!("Weak::upgrade returned a handle to object {} from inside a destructor of the group it was being destroyed with", t));
+            violate_soft(View::Weak, &format!("Weak::upgrade returned a handle to object {} from inside a destructor of the group it was being destroyed with", t));
         }
         if !is_some && !destroyed {
-            drop(m);
-            violate(View::Weak, &format!("Weak::upgrade returned None for object {} although it was not destroyed", t));
+            violate_soft(View::Weak, &format!("Weak::upgrade returned None for object {} although it was not destroyed", t));
         }
     }
     if b.cost.valid && b.cost.table_empty && b.vchildren.is_empty() {
@@ -700,8 +696,7 @@ pub fn on_hdrop_end(target: Oid, panicking: bool) {
                 al - b.cost.allocs,
                 fr - b.cost.frees
             );
-            drop(m);
-            violate(View::Cost, &msg);
+            violate_soft(View::Cost, &msg);
         }
         if m.objs[target as usize].ever_recorded {
             label(lab::EMPTY_DROP_HISTORY);
@@ -720,8 +715,7 @@ pub fn on_upgrade(t: Oid, is_some: bool) -> bool {
     count(ctr::UPGRADES, 1);
     if t == NONE {
         if is_some {
-            drop(m);
-            violate(View::Weak, "Weak::new().upgrade() returned Some");
+            violate_soft(View::Weak, "Weak::new().upgrade() returned Some");
         }
         return false;
     }
@@ -732,8 +726,7 @@ pub fn on_upgrade(t: Oid, is_some: bool) -> bool {
             label(lab::WEAK_AFTER);
         }
         if is_some {
-            drop(m);
-            violate(View::Weak, &format!("Weak::upgrade returned a handle to object {} whose value is already {:?}", t, st));
+            violate_soft(View::Weak, &format!("Weak::upgrade returned a handle to object {} whose value is already {:?}", t, st));
         }
         return false;
     }
@@ -742,8 +735,7 @@ pub fn on_upgrade(t: Oid, is_some: bool) -> bool {
     match idx {
         None => {
             if !is_some {
-                drop(m);
-                violate(View::Weak, &format!("Weak::upgrade returned None for live object {}", t));
+                violate_soft(View::Weak, &format!("Weak::upgrade returned None for live object {}", t));
             }
             true
         }
